@@ -686,7 +686,10 @@ impl TimeZoneProvider for FsTzdbProvider {
                     EpochNanoseconds::try_from(epoch_nanos.0 - seconds_to_nanoseconds(std.offset))?;
                 let dst_epoch_ns =
                     EpochNanoseconds::try_from(epoch_nanos.0 - seconds_to_nanoseconds(dst.offset))?;
-                vec![std_epoch_ns, dst_epoch_ns]
+                // NOTE: the possible instants are listed in ascending order.
+                let mut possible = vec![std_epoch_ns, dst_epoch_ns];
+                possible.sort();
+                possible
             }
         };
         Ok(result)
